@@ -130,6 +130,40 @@ class FixedRandom(object):
         return v
 
 
+class ShutilProxy(object):
+    """stands in for `shutil` inside the storing modules: copyfile/copy/copy2 go through the traced open (truncate
+    or create the destination, then raw writes of 16 KB), everything else is forwarded."""
+
+    def __init__(self, tracer):
+        self._t = tracer
+
+    def __getattr__(self, name):
+        return getattr(shutil, name)
+
+    def copyfile(self, src, dst, **kw):
+        with open(src, 'rb') as fi:
+            with self._t.traced_open(dst, 'wb') as fo:
+                while True:
+                    buf = fi.read(16384)
+                    if not buf:
+                        break
+                    fo.write(buf)
+                    fo.flush()
+        return dst
+
+    def copy(self, src, dst, **kw):
+        if os.path.isdir(dst):
+            dst = os.path.join(dst, os.path.basename(src))
+        self.copyfile(src, dst)
+        shutil.copymode(src, dst)
+        return dst
+
+    def copy2(self, src, dst, **kw):
+        dst = self.copy(src, dst)
+        shutil.copystat(src, dst)
+        return dst
+
+
 class Env(object):
     """tracer + patched modules for one scenario directory."""
 
@@ -150,11 +184,31 @@ class Env(object):
                 self.saved.append((mod, mod.random))
                 mod.random = self.rnd
         self.tr.proxy.getpid = self.rnd.getpid
+        # configuration: the cache directory is a file system of its own (rename from outside fails with EXDEV);
+        # the storing code of today only renames inside one directory
+        tr, proxy_cls = self.tr, type(self.tr.proxy)
+
+        def rename(src, dst, **kw):
+            inside = lambda q: tr.canon(q).startswith(tr.root + os.sep)      # noqa: E731
+            if inside(src) != inside(dst):
+                import errno
+                raise OSError(errno.EXDEV, 'Invalid cross-device link', src)
+            return proxy_cls.rename(tr.proxy, src, dst, **kw)
+        self.tr.proxy.rename = rename
+        self.tr.proxy.replace = rename
+        # file copies by shutil are made of raw writes too
+        self.saved_shutil = []
+        for mod in fstrace.store_modules():
+            if 'shutil' in mod.__dict__:
+                self.saved_shutil.append((mod, mod.shutil))
+                mod.shutil = ShutilProxy(self.tr)
 
     def close(self):
         self.tr.unpatch()
         for mod, val in self.saved:
             mod.random = val
+        for mod, val in self.saved_shutil:
+            mod.shutil = val
 
     def traced(self, fn):
         """run fn() with tracing; returns (ops, exception type name or None)."""
@@ -264,8 +318,8 @@ class CrashWalk(object):
                     self.n += 1
                     yield i, c, torn
             fstrace.apply_op(cur, op)
-        shutil.rmtree(cur, ignore_errors=True)
-        shutil.rmtree(torn, ignore_errors=True)
+        for d in (cur, torn, cur + '.outside', torn + '.outside'):
+            shutil.rmtree(d, ignore_errors=True)
 
 
 def classify_bad(r, allowed, others):
@@ -831,6 +885,7 @@ def scen_compact(ctx, version, nsteps, out, big=False, perms=False):
     try:
         pk = dict(directory_permissions='755', file_permissions='644') if perms else {}
         cache = cls(cdir, **pk)
+        maxlen = 0
         ctx.count('%s:permissions-configured=%s' % (tag, bool(perms)))
         for step in range(nsteps):
             nb = rng.choice([1, 1, 2, 3])
@@ -843,6 +898,15 @@ def scen_compact(ctx, version, nsteps, out, big=False, perms=False):
                 batch.append((c, bytes(rng.randrange(256) for _ in range(n))))
             if len(batch) > 1 and any(c == foreign for c, _ in batch) is False and rng.random() < 0.2:
                 batch[0] = (batch[-1][0], batch[0][1])       # the same address twice in one batch
+            if not big and step == nsteps - 2:
+                # directed: an address that has content ...
+                batch = [(coords[0], bytes(rng.randrange(256) for _ in range(3)))]
+            elif not big and step == nsteps - 1:
+                # ... is replaced by the largest tile of the bundle so far (the header's max record size is updated
+                # after the index entry)
+                batch = [(coords[0], bytes(rng.randrange(256) for _ in range(maxlen + 1 + rng.randrange(4))))]
+                ctx.count('%s:directed-largest-tile-over-existing' % tag)
+            maxlen = max([maxlen] + [len(d) for _, d in batch])
             pre_dir = os.path.join(root, 'pre')
             env.fstrace.copy_tree(cdir, pre_dir)
             old = read_compact(version, cdir, coords)
@@ -962,7 +1026,12 @@ def scen_compact(ctx, version, nsteps, out, big=False, perms=False):
             if single_bundle and init_shape not in ([], ['create', 'write', 'rename'], ['create', 'write', 'rename'] * 2):
                 ctx.problem('correspondence', '%s: initialisation is not write_atomic shaped: %r' % (tag, init_shape), rep)
             # ---- correspondence case for the in-place part
-            if single_bundle and exc is None and bundle_ops:
+            if bundle_ops and max(len(o[2]) for o in bundle_ops) > 20000:
+                # not the shape of any modelled in-place write (records of this stream are below 9 KB): say so instead
+                # of handing Coq a literal of that size
+                ctx.problem('correspondence', '%s: in-place raw write of %d bytes on an existing bundle file' % (
+                    tag, max(len(o[2]) for o in bundle_ops)), rep)
+            elif single_bundle and exc is None and bundle_ops:
                 slots = [slot_of(version, c) for c in coords[:ncoq]]
                 mb = '[' + '; '.join('(%d, %s)' % (slot_of(version, c), bytes_lit(d)) for c, d in batch) + ']'
                 obs_l = '[' + '; '.join('(%s, %s, [%s])' % (natlit(k), cutlit(cut), '; '.join(rlit(r) for r in rs))
